@@ -14,6 +14,12 @@ _known = None
 def refine(site, o):
     global _known
     mod = site.split("@")[-1].split(".")[0]
+    if site == "AssertionError@tensor.address_for_coordinate":
+        # a STRIDED_SLICE begin value below -dim (the reference clamps it, Vela reads from a negative coordinate)
+        import gen_ssmask
+
+        if "begin" in gen_ssmask.out_of_range(((o.get("desc") or {}).get("desc")) or []):
+            return site + ":strided-slice-begin-below-minus-dim"
     if mod not in UTILITY_MODULES:
         return site
     if _known is None:
